@@ -107,19 +107,26 @@ _HIST = {
  'C04': ' Call histories: second serial assembly on the same operator with a same-length trial list in another order; square assembly with two different lists of equal length; both orientations entrywise; virtual-pool path.',
  'C06': ' Two marking steps on one mesh object (isotropic/anisotropic first step, every subset for N<=3(5), singletons up to N=6(8)).',
  'C07': ' Call histories: all 20 ordered pairs of curves served one after the other in fresh processes.',
- 'C08': ' Call histories: all 6 orders of the three domains served in one process (shared boundary segments). Exact clause also on wide time intervals away from 0 (end/start = 32, 32, 64; custom time grids).',
- 'C09': ' Call histories: all ordered pairs of pool-path calls (weighted-L2, Sobolev) on one estimator and one element list object with different residuals (virtual pool, one window).',
+ 'C08': ' Call histories: all 6 orders of the three domains served in one process (shared boundary segments). Exact clause also on wide time intervals away from 0 (end/start = 32, 32, 64) and thin late slabs (custom time grids).',
+ 'C09': ' Custom closed curves (circle of radius 2, stadium, thin rectangle; comparable element sizes); estimators with other order tuples are created before and after the ones under test. Call histories: all ordered pairs of pool-path calls (weighted-L2, Sobolev) on one estimator and one element list object with different residuals (virtual pool, one window).',
  'C10': ' Query-refine-query histories on one mesh object on every transition and along the random walks.',
  'C11': ' Call histories: all 20 ordered pairs of curves served one after the other in fresh processes.',
- 'C13': ' Operator histories judged by the eigenvalue criterion: child blocks recomputed with new virtual children and re-assembly on the same operator; the driver lifecycle (operator created and registered on the initial mesh, bisection history applied afterwards, same operator assembles). Alternating-time meshes (spatial neighbours on two time levels).',
+ 'C13': ' Operator histories judged by the eigenvalue criterion: child blocks recomputed with new virtual children and re-assembly on the same operator; the driver lifecycle (operator created and registered on the initial mesh, bisection history applied afterwards, same operator assembles). Alternating-time meshes (spatial neighbours on two time levels); custom non-uniform tensor grids and custom closed curves (circle of radius 2, stadium, thin rectangle).',
  'C15': ' Construction histories on shared tensor schemes (all constructor orders; judged by measure and moments); box alphabets contain translates with identical side lengths, zero bounds and short intervals far from the origin.',
  'C16': ' End points are looked up before the refinement that creates them in the second orientation of every targeting case.',
  'C17': ' Pool call histories with lists mutated in place (reverse / replace / rotate) on the same operator. Square requests with equal test and different trial lists; long-list cache histories (300 / 1100 elements, middle exchanged or replaced) against one directory.',
- 'C18': ' Construction histories on one curve object: every ordered pair of six space grids (incl. different grids of the same length) x two time grids. Vectorised eval on every order class of the alphabet (reversed, all rotations, interleaved, piece i - piece j - piece i).',
- 'C19': ' Every ordered pair of exponents graded one after the other on one mesh object at every state of depth <= 2 (quick) / 3 (thorough). Time strips of level 8 (quick) / 8, 11, 14 (thorough) at t = 0 (exact window ties for sigma = 1.5).',
- 'C20': ' Prolongate is also called on stored element lists after the mesh was refined further and with permuted fine lists. Custom non-uniform tensor grids (equal levels, different sizes).',
+ 'C18': ' Construction histories on one curve object: every ordered pair of six space grids (incl. different grids of the same length) x two time grids. Vectorised eval on every order class of the alphabet (reversed, all rotations, interleaved, piece i - piece j - piece i); open lattice polylines and custom polygons not starting in the origin.',
+ 'C19': ' Every ordered pair of exponents graded one after the other on one mesh object at every state of depth <= 2 (quick) / 3 (thorough). Time strips of level 8 (quick) / 8, 11, 14 (thorough) at t = 0 (exact window ties for sigma = 1.5); one-element strips that need 17+ sweeps (2^17 leaves).',
+ 'C20': ' Prolongate is also called on stored element lists after the mesh was refined further and with permuted fine lists. Custom non-uniform tensor grids (equal levels, different sizes), custom closed curves, cross-curve histories in fresh processes.',
 }
-_HIST['C05'] = ' Constructor clause: every family requested by degree through the scheme constructors in one process (rule returned must be exact to the degree asked for).'
+_HIST['C02'] = ' Deep directed roots: time / space level 22 (30) next to t = T / x = L, staircases of 13 (16) forced bisections.'
+_HIST['C14'] = ''
+_HIST['C16'] += ' Deep targets of level 8, 10, 12 (thorough: up to 14).'
+_HIST['C07'] += ' Custom thin rectangle with end time 2^-8; deep directed universes (space level 11 / 14 next to both ends of the parameter interval).'
+_HIST['C06'] += ' Power-of-two scaled indicator families (2^-30 .. 2^40); mode D: deep directed roots (level 17+) with every ordered pair (deep leaf, any leaf) marked.'
+_HIST['C10'] += ' Deep directed roots as in C02.'
+_HIST['C11'] += ' Short-end-time universes and a custom grid with size ratio 250 between close panels.'
+_HIST['C05'] = ' Constructor clause: every family requested by degree through the scheme constructors in one process (rule returned must be exact to the degree asked for), and again after 120 further schemes were built in the same process.'
 _HIST['C12'] = ' Universes with very short end times (2^-9, 2^-11) where only the seam / corner couples survive.'
 for _k, _t in _HIST.items():
     CHECKS[_k]['level_claimed']['text'] += _t
